@@ -414,3 +414,52 @@ package gtab
 //@   ensures err == nil ==> forall g uint16 :: has(s.(*Gsub1_2).Cov, g) ==> 0 <= s.(*Gsub1_2).Cov[g] && s.(*Gsub1_2).Cov[g] < len(s.(*Gsub1_2).SubstituteGlyphIDs)
 //@   ensures p.r == old(p.r) && (faults(p.r) > old(faults(p.r)) ==> err != nil)
 //@   modifies p.*, allelems(byte), rpos(p.r), faults(p.r)
+
+//@ func readGsub2_1(p *parser.Parser, subtablePos int64) (s Subtable, err error)   props: C02 C18 C07
+//@   requires parser.inv(p) && subtablePos >= 0 && subtablePos <= 4611686018427387904
+//@   ensures err == nil ==> parser.inv(p) && s != nil && is(s, *Gsub2_1) && s.(*Gsub2_1) != nil
+//@   ensures err == nil ==> forall g uint16 :: has(s.(*Gsub2_1).Cov, g) ==> 0 <= s.(*Gsub2_1).Cov[g] && s.(*Gsub2_1).Cov[g] < len(s.(*Gsub2_1).Repl)
+//@   ensures p.r == old(p.r) && (faults(p.r) > old(faults(p.r)) ==> err != nil)
+//@   modifies p.*, allelems(byte), rpos(p.r), faults(p.r)
+//@   loop 0
+//@     invariant parser.inv(p) && p.r == old(p.r) && faults(p.r) <= old(faults(p.r)) && 0 <= i && i <= sequenceCount && sequenceCount == len(sequenceOffsets) && fresh(repl) && len(repl) == sequenceCount && cov != nil && fresh(cov)
+//@     invariant forall g uint16 :: has(cov, g) ==> 0 <= cov[g] && cov[g] < sequenceCount
+//@     decreases sequenceCount - i
+
+//@ func readGsub3_1(p *parser.Parser, subtablePos int64) (s Subtable, err error)   props: C02 C18 C07
+//@   requires parser.inv(p) && subtablePos >= 0 && subtablePos <= 4611686018427387904
+//@   ensures err == nil ==> parser.inv(p) && s != nil && is(s, *Gsub3_1) && s.(*Gsub3_1) != nil
+//@   ensures err == nil ==> forall g uint16 :: has(s.(*Gsub3_1).Cov, g) ==> 0 <= s.(*Gsub3_1).Cov[g] && s.(*Gsub3_1).Cov[g] < len(s.(*Gsub3_1).Alternates)
+//@   ensures p.r == old(p.r) && (faults(p.r) > old(faults(p.r)) ==> err != nil)
+//@   modifies p.*, allelems(byte), rpos(p.r), faults(p.r)
+//@   loop 0
+//@     invariant parser.inv(p) && p.r == old(p.r) && faults(p.r) <= old(faults(p.r)) && 0 <= i && i <= alternateSetCount && alternateSetCount == len(alternateSetOffsets) && fresh(alt) && len(alt) == alternateSetCount && cov != nil && fresh(cov)
+//@     invariant forall g uint16 :: has(cov, g) ==> 0 <= cov[g] && cov[g] < alternateSetCount
+//@     decreases alternateSetCount - i
+//@   loop 1
+//@     invariant parser.inv(p) && p.r == old(p.r) && faults(p.r) <= old(faults(p.r)) && 0 <= j && j <= glyphCount && 0 <= i && i < alternateSetCount && fresh(alt) && len(alt) == alternateSetCount && fresh(alt[i]) && len(alt[i]) == glyphCount && cov != nil && fresh(cov) && alternateSetCount == len(alternateSetOffsets)
+//@     invariant forall g uint16 :: has(cov, g) ==> 0 <= cov[g] && cov[g] < alternateSetCount
+//@     decreases glyphCount - j
+
+// readGsub4_1: a ligature whose component count is 0 is read as having 65535
+// components (the count is decremented in 16 bits); this allocates at most
+// 128 KiB per ligature and is not a panic.
+//@ func readGsub4_1(p *parser.Parser, subtablePos int64) (s Subtable, err error)   props: C02 C18 C07
+//@   requires parser.inv(p) && subtablePos >= 0 && subtablePos <= 4611686018427387904
+//@   ensures err == nil ==> parser.inv(p) && s != nil && is(s, *Gsub4_1) && s.(*Gsub4_1) != nil
+//@   ensures err == nil ==> forall g uint16 :: has(s.(*Gsub4_1).Cov, g) ==> 0 <= s.(*Gsub4_1).Cov[g] && s.(*Gsub4_1).Cov[g] < len(s.(*Gsub4_1).Repl)
+//@   ensures p.r == old(p.r) && (faults(p.r) > old(faults(p.r)) ==> err != nil)
+//@   modifies p.*, allelems(byte), rpos(p.r), faults(p.r)
+//@   loop 0
+//@     invariant parser.inv(p) && p.r == old(p.r) && faults(p.r) <= old(faults(p.r)) && fresh(repl) && len(repl) == len(ligatureSetOffsets) && cov != nil && fresh(cov)
+//@     invariant forall g uint16 :: has(cov, g) ==> 0 <= cov[g] && cov[g] < len(repl)
+//@   loop 1
+//@     invariant parser.inv(p) && p.r == old(p.r) && faults(p.r) <= old(faults(p.r)) && fresh(repl) && len(repl) == len(ligatureSetOffsets) && cov != nil && fresh(cov) && fresh(repl[i]) && len(repl[i]) == len(ligatureOffsets) && ligatureSetPos >= 0 && ligatureSetPos <= 4611686018427453439
+//@     invariant forall g uint16 :: has(cov, g) ==> 0 <= cov[g] && cov[g] < len(repl)
+//@   loop 2
+//@     invariant parser.inv(p) && p.r == old(p.r) && faults(p.r) <= old(faults(p.r)) && fresh(repl) && len(repl) == len(ligatureSetOffsets) && cov != nil && fresh(cov) && fresh(repl[i]) && len(repl[i]) == len(ligatureOffsets) && fresh(componentGlyphIDs) && ligatureSetPos >= 0 && ligatureSetPos <= 4611686018427453439
+//@     invariant forall g uint16 :: has(cov, g) ==> 0 <= cov[g] && cov[g] < len(repl)
+//@   loop 3
+//@     invariant cov != nil && fresh(repl)
+//@   loop 4
+//@     invariant cov != nil && fresh(repl)
